@@ -215,7 +215,8 @@ def main(argv):
                 absorb(d2)
             if unknown:
                 break
-    # report
+    # report: the cleanest witnesses first (same registry before both runs, two fresh processes)
+    unknown.sort(key=lambda d: (bool(d.get("registry_differs_before_run")), d["kind"] != "process", d["kind"] != "repeat"))
     seen = set()
     for d in unknown:
         key = (d["id"], d["field"])
